@@ -277,6 +277,9 @@ def run_ctor(case, obs, prng):
     cls = getattr(regions, case['cls'])
     spec = base_spec(prng, case['cls'])
     kw = ctor_kwargs(spec)
+    origin = kw.pop('origin', None)       # constructor option, not a shape parameter: kept valid, never judged
+    if origin is not None:
+        kw['vertices'] = kw['vertices'] + origin
     # sanity: the valid construction works and satisfies the invariant
     good = cls(**kw)
     check_invariant(obs, good, 'valid construction')
